@@ -457,19 +457,20 @@ theorem GOk.oneshot_end {s u : St} (h : GOk s) (hk : s.cfg.kind = .oneshot) (k :
 
 /-- one-shot: the accept thread comes back from its only client and closes the server -/
 theorem GOk.afterEnd_oneshot {s t : St} (h : GOk s) (hone : s.cfg.kind = .oneshot) (hcl : s.closedFlag = false)
-    (k : Nat) (a : Agree s t k) (hc : COk s.cfg false { t.cli k with tracked := false })
+    (k : Nat) (e1 : t.cfg = s.cfg) (e2 : t.closedFlag = false) (e3 : t.queue = []) (e4 : t.blocked = [])
+    (e5 : t.poolUp = false) (e6 : t.accepted ≤ 1) (e7 : ∀ j, j ≠ k → t.cli j = s.cli j)
+    (hc : COk s.cfg false { t.cli k with tracked := false })
     (hi : (t.cli k).inst ≠ none → (s.cli k).inst ≠ none ∨ ∀ j, (s.cli j).inst = none) : GOk (afterEnd t k) := by
-  have hpu : s.poolUp = false := by simpa [hone] using (h.opn hcl).2.2.2.1
   unfold afterEnd
-  rw [a.cfg, if_pos hone]
+  rw [e1, if_pos hone]
   refine h.oneshot_end hone k (Or.inr (Or.inr hcl)) hcl ?_ ?_ ?_ ?_ ?_ ?_ ?_ ?_ ?_
-  · simp [a.cfg]
-  · simp [a.closedFlag, hcl]
-  · simp [a.queue, h.q]
-  · simp [a.blocked, h.b]
-  · simp [a.poolUp, hpu]
-  · simpa [a.accepted hone] using (h.oacc hone).1
-  · intro j hj; simp [set_cli_ne _ _ _ _ hj, a.other j hj]
+  · simp [e1]
+  · simp [e2]
+  · simp [e3]
+  · simp [e4]
+  · simp [e5]
+  · simpa using e6
+  · intro j hj; simp [set_cli_ne _ _ _ _ hj, e7 j hj]
   · simpa using hc
   · intro h1; exact hi (by simpa using h1)
 
@@ -540,9 +541,10 @@ theorem GOk.send_end {s : St} (h : GOk s) (k : Nat) (it : Item) (hit : it = .bye
         rcases hit with rfl | rfl <;>
           simp only [send, wake, set_cli_same, hsh, hp, hone, hin, runDedicated, applyConsumed, consume,
             Bool.false_eq_true, if_false, if_true, List.nil_append, set_cfg, reduceCtorEq, endServe_phase] <;>
-          refine h.afterEnd_oneshot hone hcl' k ?_ ?_ ?_
+          refine h.afterEnd_oneshot hone hcl' k rfl (by simp [hcl']) (by simp [h.q]) (by simp [h.b]) (by simp [hpu])
+            (by simpa using (h.oacc hone).1) ?_ ?_ ?_
         all_goals first
-          | (constructor <;> simp <;> (intro j hj; simp [set_cli_ne _ _ _ _ hj]))
+          | (intro j hj; simp [set_cli_ne _ _ _ _ hj]; done)
           | (simpa [hpo', hfd', endServe, release, closeConn, hco] using hgk)
           | (intro _; left; simpa using hs.2.2.1)
       · have hpb : (s.cfg.kind == Kind.pool) = false := by simp [hpool]
@@ -580,7 +582,8 @@ theorem acceptAll_skip (l : List Nat) (s : St) (h : canAccept s = true → ∀ j
 /-- with exactly one connection waiting, the loop accepts that one and finds nothing else -/
 theorem acceptAll_single (l : List Nat) (s : St) (k : Nat) (hk : k ∈ l) (hc : canAccept s = true)
     (hb : (s.cli k).phase = .backlog) (ho : ∀ j, j ≠ k → (s.cli j).phase ≠ .backlog)
-    (ha : ∀ j, ((acceptOne s k).cli j).phase ≠ .backlog) : acceptAll l s = acceptOne s k := by
+    (ha : canAccept (acceptOne s k) = true → ∀ j, ((acceptOne s k).cli j).phase ≠ .backlog) :
+    acceptAll l s = acceptOne s k := by
   induction l with
   | nil => simp at hk
   | cons a l ih =>
@@ -588,7 +591,7 @@ theorem acceptAll_single (l : List Nat) (s : St) (k : Nat) (hk : k ∈ l) (hc : 
     by_cases hak : a = k
     · subst hak
       simp only [hc, hb, Bool.and_self, decide_true, if_true]
-      exact acceptAll_skip l _ (fun _ j _ => ha j)
+      exact acceptAll_skip l _ (fun h1 j _ => ha h1 j)
     · have : (s.cli a).phase ≠ .backlog := ho a hak
       simp only [this, decide_false, Bool.and_false, Bool.false_eq_true, if_false]
       exact ih (by simpa [Ne.symm hak] using hk)
@@ -602,5 +605,123 @@ theorem GOk.untrackAll {s : St} (h : GOk s) (hk : s.cfg.kind = .pool) : GOk (unt
   · intro h1; simp [Srv.untrackAll, hk] at h1
   · intro h1; simp [Srv.untrackAll, hk] at h1
   · intro h1; simp [Srv.untrackAll, hk] at h1
+
+
+
+theorem GOk.no_backlog {s : St} (h : GOk s) (hc : canAccept s = true) (j : Nat) : (s.cli j).phase ≠ .backlog := by
+  intro hb
+  obtain ⟨_, hone, hcl⟩ := (h.cli j).backlog hb
+  have hbusy : s.acceptBusy = none := by
+    simp [canAccept] at hc; exact hc.2
+  have := h.free hone hcl hbusy j
+  simp [hb] at this
+
+def fresh (cred : Cred) : Cli := { cred := cred, phase := .backlog, clientOpen := true }
+
+/-- a new client is taken from the listener by a free accept loop: threaded and forking servers -/
+theorem GOk.accept_dedicated {s : St} (h : GOk s) (k : Nat) (cred : Cred) (ids : List Nat)
+    (hk : s.cfg.kind = .threaded ∨ s.cfg.kind = .forking) (hcl : s.closedFlag = false)
+    (habs : (s.cli k).phase = .absent) (hcr : cred ≠ .silent) (hbad : cred = .bad → s.cfg.auth = true) :
+    GOk (acceptOne { (s.set k (fresh cred)) with ids := ids } k) := by
+  have hone : s.cfg.kind ≠ .oneshot := by rcases hk with hk | hk <;> simp [hk]
+  refine h.agree_free hone k ?_ ?_
+  · constructor <;> rcases hk with hk | hk <;> cases cred <;> cases hau : s.cfg.auth <;>
+      simp_all [acceptOne, authServe, serveClient, built, runDedicated, applyConsumed, consume, afterEnd, fresh,
+        dedFrames] <;>
+      (intro j hj; simp [set_cli_ne _ _ _ _ hj])
+  · rcases hk with hk | hk <;> cases cred <;> cases hau : s.cfg.auth <;>
+      simp_all (config := {decide := true}) [acceptOne, authServe, serveClient, built, runDedicated, applyConsumed,
+        consume, afterEnd, fresh, dedFrames, COk, Shape, Served, Gone, release]
+
+
+/-- the same for the pool: authenticate and build in the accept thread, register, `clients.clear()` -/
+theorem GOk.accept_pool {s : St} (h : GOk s) (k : Nat) (cred : Cred) (ids : List Nat)
+    (hk : s.cfg.kind = .pool) (hcl : s.closedFlag = false)
+    (habs : (s.cli k).phase = .absent) (hcr : cred ≠ .silent) (hbad : cred = .bad → s.cfg.auth = true) :
+    GOk (acceptOne { (s.set k (fresh cred)) with ids := ids } k) := by
+  have hone : (Srv.untrackAll s).cfg.kind ≠ .oneshot := by simp [Srv.untrackAll, hk]
+  have hup : s.poolUp = true := by simpa [hk] using (h.opn hcl).2.2.2.1
+  refine (h.untrackAll hk).agree_free hone k ?_ ?_
+  · constructor <;> cases cred <;> cases hau : s.cfg.auth <;>
+      simp_all [acceptOne, poolAccept, poolBuild, poolWake, built, fresh, Srv.untrackAll, St.mapCli] <;>
+      (intro j hj; simp [set_cli_ne _ _ _ _ hj, St.set, hj])
+  · cases cred <;> cases hau : s.cfg.auth <;>
+      simp_all (config := {decide := true}) [acceptOne, poolAccept, poolBuild, poolWake, built, fresh, Srv.untrackAll,
+        St.mapCli, COk, Shape, Served, Gone, release]
+
+
+/-- one-shot: the accept thread itself serves the client it took -/
+theorem GOk.serve_oneshot {s X : St} (h : GOk s) (k : Nat) (cred : Cred)
+    (hk : s.cfg.kind = .oneshot) (hcl : s.closedFlag = false) (hbusy : s.acceptBusy = none) (hcr : cred ≠ .silent)
+    (e1 : X.cfg = s.cfg) (e2 : X.closedFlag = false) (e3 : X.listening = s.listening) (e4 : X.active = s.active)
+    (e5 : X.acceptAlive = s.acceptAlive) (e6 : X.acceptBusy = some k) (e7 : X.queue = []) (e8 : X.blocked = [])
+    (e9 : X.poolUp = s.poolUp) (e10 : X.accepted = s.accepted + 1) (e11 : ∀ j, j ≠ k → X.cli j = s.cli j)
+    (e12 : X.cli k = { fresh cred with srvFd := true, tracked := true, phase := .idle }) :
+    GOk (serveClient X k) := by
+  have hall := h.free hk hcl hbusy
+  have hacc := (h.oacc hk).2 hcl hbusy
+  have hfree : ∀ j, Free (s.cli j) := by
+    intro j; have := (h.cli j).2.2; simpa [Shape, hall j] using this
+  obtain ⟨a1, a2, a3, a4, a5, a6, a7, a8, a9, a10, a11, a12⟩ := h
+  have hph : ∀ j, j ≠ k → (serveClient X k).cli j = s.cli j := by
+    intro j hj
+    simp [serveClient, built, runDedicated, applyConsumed, consume, fresh, dedFrames, set_cli_ne _ _ _ _ hj, e12, e11 j hj]
+  have hkk : COk s.cfg false ((serveClient X k).cli k) ∧ ((serveClient X k).cli k).phase = .idle ∧
+      (serveClient X k).acceptBusy = some k ∧ (serveClient X k).closedFlag = false ∧ (serveClient X k).cfg = s.cfg ∧
+      (serveClient X k).queue = [] ∧ (serveClient X k).blocked = [] ∧ (serveClient X k).accepted = 1 ∧
+      (serveClient X k).listening = s.listening ∧ (serveClient X k).active = s.active ∧
+      (serveClient X k).acceptAlive = s.acceptAlive ∧ (serveClient X k).poolUp = s.poolUp := by
+    simp (config := {decide := true}) [serveClient, built, runDedicated, applyConsumed, consume, fresh, dedFrames, COk,
+      Shape, Served, hk, hcr, e1, e2, e3, e4, e5, e6, e7, e8, e9, e10, e12, hacc]
+  obtain ⟨k1, k2, k3, k4, k5, k6, k7, k8, k9, k10, k11, k12⟩ := hkk
+  refine ⟨?_, k6, k7, ?_, ?_, ?_, ?_, ?_, ?_, ?_, ?_, ?_⟩
+  · intro j; by_cases hj : j = k
+    · subst hj; simpa [k5, k4] using k1
+    · rw [hph j hj, k5, k4]; simpa [hcl] using a1 j
+  · intro h1; simp [k5, hk] at h1
+  · intro h1; simp [k4] at h1
+  · intro _; rw [k9, k10, k11, k12, k5]; refine ⟨(a6 hcl).1, (a6 hcl).2.1, (a6 hcl).2.2.1, (a6 hcl).2.2.2.1, ?_⟩
+    intro h1; exact absurd hk h1
+  · intro b hb; rw [k3] at hb; cases hb; exact ⟨by rw [k5]; exact hk, k2⟩
+  · intro _ _ h3; simp [k3] at h3
+  · intro _ j hj
+    by_cases hjk : j = k
+    · subst hjk; exact k3
+    · rw [hph j hjk, hall j] at hj; simp at hj
+  · intro _ j hj
+    by_cases hjk : j = k
+    · subst hjk; simp [k2] at hj
+    · rw [hph j hjk, hall j] at hj; simp at hj
+  · intro _; simp [k8, k3]
+  · intro _ i j hi hj
+    by_cases hik : i = k <;> by_cases hjk : j = k
+    · rw [hik, hjk]
+    · rw [hph j hjk] at hj; exact absurd (hfree j).2.2.2.2.2.2.1 hj
+    · rw [hph i hik] at hi; exact absurd (hfree i).2.2.2.2.2.2.1 hi
+    · rw [hph j hjk] at hj; exact absurd (hfree j).2.2.2.2.2.2.1 hj
+
+theorem GOk.accept_oneshot {s : St} (h : GOk s) (k : Nat) (cred : Cred) (ids : List Nat)
+    (hk : s.cfg.kind = .oneshot) (hcl : s.closedFlag = false) (hbusy : s.acceptBusy = none)
+    (habs : (s.cli k).phase = .absent) (hcr : cred ≠ .silent) (hbad : cred = .bad → s.cfg.auth = true) :
+    GOk (acceptOne { (s.set k (fresh cred)) with ids := ids } k) := by
+  have hserved := fun X => h.serve_oneshot (X := X) k cred hk hcl hbusy hcr
+  cases cred with
+  | silent => exact absurd rfl hcr
+  | good =>
+    cases hau : s.cfg.auth <;> simp only [acceptOne, hk, authServe, set_cfg, hau, if_true, if_false, set_cli_same, fresh,
+        Bool.false_eq_true] <;>
+      refine hserved _ rfl ?_ rfl rfl rfl rfl ?_ ?_ rfl ?_ ?_ ?_ <;>
+      first
+        | (simp [hcl, h.q, h.b, fresh]; done)
+        | (intro j hj; simp [set_cli_ne _ _ _ _ hj])
+  | bad =>
+    have hau := hbad rfl
+    simp only [acceptOne, hk, authServe, set_cfg, hau, if_true, set_cli_same, fresh]
+    have hacc := (h.oacc hk).2 hcl hbusy
+    refine h.afterEnd_oneshot hk hcl k rfl (by simp [hcl]) (by simp [h.q]) (by simp [h.b])
+      (by simpa [hk] using (h.opn hcl).2.2.2.1) (by simp [hacc]) ?_ ?_ ?_
+    · intro j hj; simp [set_cli_ne _ _ _ _ hj]
+    · simp (config := {decide := true}) [COk, Shape, Gone, release]
+    · intro h1; simp [release] at h1
 
 end Rpyc.Srv
